@@ -79,7 +79,7 @@ mod harnesses {
     }
 
     #[kani::proof]
-    #[kani::unwind(5)]
+    #[kani::unwind(34)]
     fn evaluations_from_slice() {
         let (bytes, len) = arbitrary_slice!(172 + 2 * 32 + 3);
         let r = hk::evaluations_from_slice(&bytes[..len]);
